@@ -89,8 +89,10 @@ def main():
         if confirmed:
             d = os.path.join(VERIF, "seeded", sid)
             os.makedirs(d, exist_ok=True)
-            shutil.copy(diff, os.path.join(d, "patch.diff"))
-            shutil.copy(demo, os.path.join(d, "demo.py"))
+            for src, name in ((diff, "patch.diff"), (demo, "demo.py")):
+                dst = os.path.join(d, name)
+                if os.path.realpath(src) != os.path.realpath(dst):
+                    shutil.copy(src, dst)
             mj = json.load(open(meta)) if os.path.exists(meta) else {}
             mj.update({"id": sid, "breaks": pid, "confirmation": {k: res[k] for k in ("repo_head", "demo_on_clean", "suite_with_change", "demo_with_change")},
                        "check": {k: res.get(k) for k in ("check_exit", "check_violation_line", "check_found_failing_input", "replay_kind", "replay_required", "replay_input", "check_wall_s")},
